@@ -63,6 +63,11 @@ var leaves = []leafDef{
 	{"nats.ErrKeyExists", clsPermanent, func(errSpec) error { return nats.ErrKeyExists }},
 	{"nats conflict (Update, stale revision)", clsPermanent, func(s errSpec) error { return refkv.ConflictError(uint64(s.Num)) }},
 	{"nats key exists (Create on existing key)", clsPermanent, func(s errSpec) error { return refkv.KeyExistsError(uint64(s.Num)) }},
+	// nats-server >= 2.12 on a replicated bucket: a revision-checked write that meets another one still being
+	// replicated is refused with err_code 10164 "wrong last sequence" (no sequence number; kv.Create passes it on raw)
+	{"nats conflict (in-flight write, err_code 10164)", clsPermanent, func(errSpec) error {
+		return &nats.APIError{Code: 400, ErrorCode: 10164, Description: "wrong last sequence"}
+	}},
 	{"nats.ErrKeyNotFound", clsAny, func(errSpec) error { return nats.ErrKeyNotFound }},
 	{"nats.ErrKeyDeleted", clsAny, func(errSpec) error { return nats.ErrKeyDeleted }},
 	{"nats.ErrNoStreamResponse", clsAny, func(errSpec) error { return nats.ErrNoStreamResponse }},
@@ -220,7 +225,7 @@ func checkC15(s errSpec) (string, string) {
 func TestC15(t *testing.T) {
 	r := report.New("C15")
 	defer r.Write()
-	r.Rule = "error trees: a leaf (every exported sentinel and error type of the library, context.Canceled/DeadlineExceeded, the NATS client's exported errors, *nats.APIError with generated codes, the exact values the client produces for a failed revision-checked Update and a Create on an existing key (as produced by the reference store, validated against a real server by C14), errors.New(text) with text from a dictionary of all pattern words in mixed case or arbitrary strings) wrapped 0-6 times by fmt.Errorf(\"<text>: %w\"), fmt.Errorf with two %w verbs (the element next to a neutral errors.New sibling, either order), ElectionError, TokenValidationError, TimeoutError (only around non-permanent leaves), errors.Join; oracle: exactly one of IsPermanentError / IsTransientError for every non-nil error, both false for nil, class membership for must-be-transient and must-be-permanent leaves. Non-trivial = wrap depth >= 1 or a NATS-client leaf; distinct by hash of the tree."
+	r.Rule = "error trees: a leaf (every exported sentinel and error type of the library, context.Canceled/DeadlineExceeded, the NATS client's exported errors, *nats.APIError with generated codes, the exact values the client produces for a failed revision-checked Update and a Create on an existing key (as produced by the reference store, validated against a real server by C14) and the 10164 variant a clustered 2.12 server answers while another revision-checked write is in flight, errors.New(text) with text from a dictionary of all pattern words in mixed case or arbitrary strings) wrapped 0-6 times by fmt.Errorf(\"<text>: %w\"), fmt.Errorf with two %w verbs (the element next to a neutral errors.New sibling, either order), ElectionError, TokenValidationError, TimeoutError (only around non-permanent leaves), errors.Join; oracle: exactly one of IsPermanentError / IsTransientError for every non-nil error, both false for nil, class membership for must-be-transient and must-be-permanent leaves. Non-trivial = wrap depth >= 1 or a NATS-client leaf; distinct by hash of the tree."
 	r.Assume("for the NATS client's time-out / no-responders / connection-closed values the class is asserted only under wrappers whose own text contains none of the documented permanent marker words")
 	r.Assume("trees that mix a must-be-transient element with a must-be-permanent element are not generated (the statement does not order them); errors.Join trees assert only totality/exclusivity")
 	judge := func(s errSpec) string {
